@@ -63,6 +63,26 @@ def parse_case(esm, tlv, text, expect=None, tag='raw'):
         out2 = 'exc ' + exc_name(e)
     if d is not None and out2 != out:      # (after a parse that raised, a second parse is not judged)
         fail = 'the same DeliverSm parsed a second time gives %s, the first time %s' % (out2[:200], out[:200])
+    # another DeliverSm with the very same text but another receipted_message_id parameter (or none): its id is its own
+    if d is not None and fail is None and (esm & 0b00111100) >> 2 == 1:
+        for tlv2 in ('sibling-id', None):
+            m2 = DeliverSm(short_message=text, esm_class=esm, optional_params=[] if tlv2 is None else [OptionalParam(RMI, tlv2)])
+            try:
+                d2 = m2.parse_receipt()
+            except Exception as e:      # noqa
+                fail = 'a second DeliverSm with the same text (parameter %r) raised %s' % (tlv2, exc_name(e))
+                break
+            text_id = d.get('id') if (tlv is None or d.get('id') != tlv) else None      # the id the text itself carries
+            if tlv is not None and d.get('id') == tlv:
+                # the first object's id may have come from its parameter: does the text carry one?
+                try:
+                    text_id = DeliverSm(short_message=text, esm_class=esm).parse_receipt().get('id')
+                except Exception:      # noqa
+                    text_id = None
+            want_id = text_id if text_id else (tlv2 if tlv2 else text_id)
+            if d2.get('id') != want_id:
+                fail = 'a second DeliverSm with the same text and parameter %r parses to id %r, expected %r' % (tlv2, d2.get('id'), want_id)
+                break
     if expect is not None and fail is None:
         if d is None:
             fail = 'parsing a well-formed receipt raised (%s)' % out
@@ -164,9 +184,55 @@ def expected(r):
     return e
 
 
+def esme_case(rng):
+    """a receipt as the application sees it: received by the ESME (which parses, logs and correlates it) and handed to the
+    received hook, where the application calls parse_receipt() - the dictionary must still be the one the text was built from"""
+    from corr.corrlib import CorrSim
+    r = rand_receipt(rng)
+    # (a text over the GSM alphabet that fits short_message: how a receipt travels in message_payload is not C20's business)
+    r['text'] = rng.choice(('', 'hello', 'a b:c d', ':', 'x' * 20))
+    r['stat'] = rng.choice(STATES)
+    how = rng.choice(('id', 'noid', 'tlv'))
+    if how != 'id':
+        r = dict(r, id='')
+    DeliverSm, OptionalParam, RMI = _mods()
+    text = DeliverSm.encode_receipt(r)
+    exp = expected(r)
+    if how == 'tlv':
+        exp['id'] = 'via-tlv'
+    sim = CorrSim()
+    fail = None
+    try:
+        d = sim.deliver(77, 'x', receipt=None)
+        d.short_message = text
+        d.esm_class = 4
+        if how == 'tlv':
+            d.optional_params = [OptionalParam(RMI, 'via-tlv')]
+        _ln, _out, res = sim.op_hdel(100, d)
+        if res is None or not hasattr(res, 'parse_receipt'):
+            fail = 'the receipt was not handed to the received hook (%r)' % (res,)
+        else:
+            got = res.parse_receipt()
+            for k, v in exp.items():
+                g = got.get(k)
+                ok = (isinstance(g, str) and g.rstrip(' ') == v.rstrip(' ')) if k == 'text' else (g == v and type(g) is type(v))
+                if not ok:
+                    fail = 'received through the ESME (log level %s): field %r built from %r, the hook reads %r' % (
+                        sim.esme._logger.level if hasattr(sim.esme, '_logger') else '?', k, v, g)
+                    break
+    except Exception as e:      # noqa
+        fail = 'receiving a well-formed receipt through the ESME raised %r' % (e,)
+    finally:
+        sim.close()
+    line = '# receipt-via-esme %s %s' % (how, nats(text))
+    return Case(line, line, ('via-esme', how), fail, {'op': 'via-esme', 'how': how, 'text': text})
+
+
 def generate(rng, tier):
     thorough = tier == 'thorough'
     n_main = 6000 if thorough else 1500
+    for _ in range(120 if thorough else 36):
+        yield esme_case(rng)
     for i in range(n_main):
         r = rand_receipt(rng)
         c, t = build_case(r)
@@ -233,6 +299,8 @@ def generate(rng, tier):
 
 
 def replay(inp):
+    if inp['op'] == 'via-esme':
+        return Case('# ' + str(inp)[:200], '', None, None, inp)
     if inp['op'] == 'build':
         r = dict(inp['r'])
         for k in ('submit date', 'done date'):
